@@ -180,6 +180,7 @@ func (workerPoolSelf *DefaultWorkerPool) generateWorkerWithMaximum(maximum int) 
 	workerPoolSelf.lastAliveTime = time.Now()
 	workerPoolSelf.workerCount++
 	isBusy := false
+	isRetired := false
 
 	go func() {
 		// Recover & Recycle
@@ -192,7 +193,9 @@ func (workerPoolSelf *DefaultWorkerPool) generateWorkerWithMaximum(maximum int) 
 			}
 
 			workerPoolSelf.lock.Lock()
-			workerPoolSelf.workerCount--
+			if !isRetired {
+				workerPoolSelf.workerCount--
+			}
 			if isBusy {
 				workerPoolSelf.workerBusy--
 			}
@@ -232,15 +235,19 @@ func (workerPoolSelf *DefaultWorkerPool) generateWorkerWithMaximum(maximum int) 
 					workerPoolSelf.lock.Unlock()
 				}
 			case <-time.After(workerPoolSelf.workerExpiryDuration):
-				workerPoolSelf.lock.RLock()
+				// Decide and give up the slot in one critical section: idle workers expiring
+				// together must not all see the same count and leave fewer than workerSizeStandBy
+				workerPoolSelf.lock.Lock()
 				workerCount := workerPoolSelf.workerCount
 				if workerCount > workerPoolSelf.workerSizeStandBy ||
 					workerCount > workerPoolSelf.workerSizeMaximum {
-					workerPoolSelf.lock.RUnlock()
+					workerPoolSelf.workerCount--
+					isRetired = true
+					workerPoolSelf.lock.Unlock()
 					verifPoint("pool.worker.expiry.decided")
 					break loopLabel
 				}
-				workerPoolSelf.lock.RUnlock()
+				workerPoolSelf.lock.Unlock()
 			}
 		}
 	}()
